@@ -339,6 +339,12 @@ func checkC15(r *Run, pre, post *Snap, st StepObs, broken map[int]bool) (string,
 
 // C24: free-storage markers.
 func checkC24(r *Run, pre, post *Snap, st StepObs, broken map[int]bool) (string, string) {
+	if st.Op.K == "freealloc" && !st.OK && !broken[-1] && strings.Contains(st.Err, "verify signature") {
+		if pa := pre.Ass[refAssigner+st.Op.B]; pa != nil && signerNum(st.Op) == pa.Key {
+			broken[-1] = true
+			return "registered-key-marker-rejected", "marker signed with the assigner's registered key refused: " + st.Err
+		}
+	}
 	if st.Op.K != "freealloc" || !st.OK || broken[-1] {
 		return "", ""
 	}
@@ -356,8 +362,8 @@ func checkC24(r *Run, pre, post *Snap, st StepObs, broken map[int]bool) (string,
 	if pa == nil {
 		return fail("unregistered-assigner", "marker of an unregistered assigner redeemed")
 	}
-	if op.X&xBadSig != 0 {
-		return fail("forged-signature-accepted", "marker not signed by the assigner redeemed")
+	if signerNum(op) != pa.Key {
+		return fail("forged-signature-accepted", fmt.Sprintf("marker signed with key %d redeemed, the assigner's registered key is %d", signerNum(op), pa.Key))
 	}
 	for _, n := range pa.Nonces {
 		if n == op.N {
@@ -476,7 +482,7 @@ func validFreeMarker(pre *Snap, op Op) (grant uint64, ok bool) {
 		rec = op.S
 	}
 	pa := pre.Ass[refAssigner+op.B]
-	if rec != op.S || pa == nil || op.X&xBadSig != 0 {
+	if rec != op.S || pa == nil || signerNum(op) != pa.Key {
 		return 0, false
 	}
 	for _, n := range pa.Nonces {
